@@ -44,6 +44,10 @@ inductive Op where
   | flag                                -- the timer fires now (heart_beat_flag = 1)
   | hbs                                 -- heart_beats()
   | take (item : Nat)                   -- item->move_object(this_object()): item joins the inventory
+  | cerr                                -- catch (error ("boom")): the error never reaches the uncaught branch
+  | reload (target : Nat) (n : Int)     -- reload_object(target); its create() does set_heart_beat(n) again
+  | living                              -- enable_commands()
+  | burn                                -- use up evaluation cost
   deriving Repr, BEq
 
 structure World where
@@ -59,6 +63,10 @@ structure World where
   nb : Nat → Nat := fun _ => 0          -- per object: number of beats so far (selects the script)
   inv : List (Nat × Nat) := []          -- (item, carrier), newest first (ob->contains is a head-inserted list)
   hooks : Nat → List Op := fun _ => []  -- static: what move_or_destruct() of an object does
+  tflags : Int := (NV.Gen.C11.timerFlagHeartbeat : Nat)   -- MAIN_OPTION (timer_flags)
+  living : List Nat := []               -- O_ENABLE_COMMANDS
+  cg : Option Nat := none               -- command_giver
+  ec : Bool := true                     -- eval_cost == CONFIG_INT (__MAX_EVAL_COST__)
   crashed : Bool := false
 
 abbrev Scripts := Nat → Nat → List Op
@@ -106,10 +114,20 @@ def queryHeartBeat (w : World) (ob : Nat) : Int :=
   | some e => e.interval
   | none => 0
 
-/-- src/error_context.c error_handler, uncaught branch -/
+/-- one statement of the `if (current_heart_beat) { ... }` block of error_handler, by the code the translator gives it
+    (`NV.Gen.C11.errBlock`): 1 = `set_heart_beat (current_heart_beat, 0)`, 2 = `current_heart_beat = 0` -/
+def errStmt (w : World) : Nat → World
+  | 1 => match w.cur with
+    | some c => setHeartBeat w c 0
+    | none => { w with crashed := true }       -- set_heart_beat (NULL, 0)
+  | 2 => { w with cur := none }
+  | _ => w
+
+/-- src/error_context.c error_handler, uncaught branch: the statements of the `if (current_heart_beat)` block in the
+    order of the source -/
 def errorHandler (w : World) : World :=
   match w.cur with
-  | some c => { setHeartBeat w c 0 with cur := none }
+  | some _ => NV.Gen.C11.errBlock.foldl errStmt w
   | none => w
 
 def isItem (w : World) (x : Nat) : Bool := w.inv.any (fun p => p.1 == x)
@@ -157,6 +175,16 @@ def stepOpBasic (w : World) (self : Nat) (op : Op) : World × List Ev × Status 
     if w.alive i && !(i < 2) && i != self && !isItem w self && !isItem w i && (itemsOf w i).isEmpty then
       ({ w with inv := (i, self) :: w.inv }, [.into i self], .ok)
     else (w, [.intoNone i self], .ok)
+  | .cerr => (w, [.caught self], .ok)
+  | .reload t n =>
+    if !w.alive t || t < 2 then (w, [.reloadNone self t], .ok)
+    else
+      -- lib/lpc/object.c reload_object: variables cleared, O_ENABLE_COMMANDS cleared, set_heart_beat (obj, 0), create()
+      let w1 := setHeartBeat { w with living := w.living.filter (· != t), nb := fun o => if o = t then 0 else w.nb o } t 0
+      let w2 := setHeartBeat w1 t (NV.Gen.C11.efunSat n)
+      (w2, [.reload self t n (queryHeartBeat w2 t)], .ok)
+  | .living => ({ w with living := self :: w.living, cg := some self }, [.living self], .ok)
+  | .burn => ({ w with ec := false }, [.burn self], .ok)
 
 /-- run a script; stops at the first error or when the object is destructed (by itself, or as an inventory item
     of the object it destructed) -/
@@ -225,8 +253,34 @@ def runOps (w : World) (self : Nat) : List Op → World × List Ev × Status
       | (w2, evs2, st) => (w2, evs ++ evs2, st)
     | (w1, evs, st) => (w1, evs, st)
 
-/-- end of a round: `heart_beat_index = num_hb_to_do = 0; current_heart_beat = 0` -/
-def finish (w : World) : World := { w with idx := 0, todo := 0, cur := none }
+/-- write back (heart_beat_index, num_hb_to_do, current_heart_beat) computed by a regenerated slice; the slices only ever
+    store NULL into current_heart_beat (0 = NULL, anything else = unchanged) -/
+def leave (w : World) (x : Int × Int × Int) : World :=
+  { w with idx := x.1, todo := x.2.1, cur := if x.2.2 = 0 then none else w.cur }
+
+def curInt (w : World) : Int := if w.cur.isSome then 1 else 0
+
+/-- end of a round (`NV.Gen.C11.roundExit`): `heart_beat_index = num_hb_to_do = 0; ... current_heart_beat = 0` -/
+def finish (w : World) : World := leave w (NV.Gen.C11.roundExit w.idx w.todo (curInt w))
+
+/-- one statement next to the call of heart_beat() in call_heart_beat, by the code the translator gives it
+    (`NV.Gen.C11.callFrame`) -/
+def frameStmt (ob : Nat) (w : World) : Nat → World
+  | 1 => { w with cur := some ob }                          -- current_heart_beat = ob;
+  | 2 => { w with cg := some ob }                           -- command_giver = ob;
+  | 3 => match w.cg with                                    -- if (!(command_giver->flags & O_ENABLE_COMMANDS)) command_giver = 0;
+    | some g => if w.living.contains g then w else { w with cg := none }
+    | none => { w with crashed := true }
+  | 4 => { w with ec := true }                              -- eval_cost = CONFIG_INT (__MAX_EVAL_COST__);
+  | 5 => { w with cg := none }                              -- command_giver = 0;
+  | _ => w                                                  -- current_object = 0; (not modelled)
+
+/-- the statements in front of / after the call, in the order of the source -/
+def callSetup (w : World) (ob : Nat) : World := (NV.Gen.C11.callFrame.takeWhile (· != 0)).foldl (frameStmt ob) w
+def callAfter (w : World) (ob : Nat) : World := ((NV.Gen.C11.callFrame.dropWhile (· != 0)).drop 1).foldl (frameStmt ob) w
+
+/-- what the heart_beat function sees when it is entered -/
+def ctxEv (w : World) (ob : Nat) : Ev := .ctx ob (w.living.contains ob) w.cg w.ec
 
 def crash (w : World) (why : String) : World × List Ev := ({ w with crashed := true }, [.junk s!"crash {why}"])
 
@@ -248,32 +302,42 @@ def round (sc : Scripts) : Nat → World → World × List Ev
       | some hb =>
         let b := NV.Gen.C11.hbBody (if w.nofn.contains hb.ob then -1 else 0) hb.ticks hb.interval
         if b.2.1 then
-          let w1 := { w with hbs := w.hbs.set w.idx.toNat { hb with ticks := b.2.2 }, cur := some hb.ob,
-                             nb := fun o => if o = hb.ob then w.nb o + 1 else w.nb o }
+          let w1 := callSetup { w with hbs := w.hbs.set w.idx.toNat { hb with ticks := b.2.2 },
+                                       nb := fun o => if o = hb.ob then w.nb o + 1 else w.nb o } hb.ob
           match runOps w1 hb.ob (sc hb.ob (w.nb hb.ob)) with
-          | (w2, evs, .err) => (errorHandler w2, .beat hb.ob :: evs ++ [.tickAbort])
+          | (w2, evs, .err) => (errorHandler w2, .beat hb.ob :: ctxEv w1 hb.ob :: evs ++ [.tickAbort])
           | (w2, evs, _) =>
-            if (cursorStep w2).2 then (finish (cursorStep w2).1, .beat hb.ob :: evs ++ [.beatEnd hb.ob, .tickEnd])
+            let w2 := callAfter w2 hb.ob
+            if (cursorStep w2).2 then (finish (cursorStep w2).1, .beat hb.ob :: ctxEv w1 hb.ob :: evs ++ [.beatEnd hb.ob, .tickEnd])
             else
               match round sc fuel (cursorStep w2).1 with
-              | (w4, evs') => (w4, .beat hb.ob :: evs ++ .beatEnd hb.ob :: evs')
+              | (w4, evs') => (w4, .beat hb.ob :: ctxEv w1 hb.ob :: evs ++ .beatEnd hb.ob :: evs')
         else
           let w1 := { w with hbs := w.hbs.set w.idx.toNat { hb with ticks := b.1 } }
           if (cursorStep w1).2 then (finish (cursorStep w1).1, [.tickEnd])
           else round sc fuel (cursorStep w1).1
 
-/-- src/backend.c call_heart_beat (heart beats only: timer_flags = TIMER_FLAG_HEARTBEAT) -/
+/-- does timer_flags have TIMER_FLAG_HEARTBEAT (what the harness prints as `tickbegin` / `tickbegin off`) -/
+def hbOn (tf : Int) : Bool := decide ((tf / (NV.Gen.C11.timerFlagHeartbeat : Nat)) % 2 ≠ 0)
+
+/-- src/backend.c call_heart_beat (heart beats only).  The frame of the round is regenerated from the source:
+    `NV.Gen.C11.roundEntry` = everything up to the while loop (heart_beat_flag = 0, num_hb_to_do = num_hb_objs, the
+    `(timer_flags & TIMER_FLAG_HEARTBEAT) && num_hb_to_do > 0` guard, heart_beat_index = 0), `roundSkip` = what is left
+    when the guard fails (heart_beat_index and num_hb_to_do keep their values, current_heart_beat = 0) -/
 def tick (sc : Scripts) (w : World) : World × List Ev :=
-  let w : World := { w with flag := false, todo := (w.hbs.length : Int) }
-  if w.todo > 0 then
-    match round sc w.hbs.length { w with idx := 0 } with
-    | (w', evs) => (w', .tickBegin :: evs)
-  else ({ w with cur := none }, [.tickBegin, .tickEnd])
+  let e := NV.Gen.C11.roundEntry (w.hbs.length : Int) w.idx w.todo (if w.flag then 1 else 0) w.tflags
+  let begin : Ev := if hbOn w.tflags then .tickBegin else .tickOff
+  let w : World := { w with flag := decide (e.2.2.1 ≠ 0), idx := e.1, todo := e.2.1 }
+  if e.2.2.2 then
+    match round sc w.hbs.length w with
+    | (w', evs) => (w', begin :: evs)
+  else (leave w (NV.Gen.C11.roundSkip w.idx w.todo (curInt w)), [begin, .tickEnd])
 
 /-- top-level commands of a case -/
 inductive Cmd where
   | tick
   | op (self : Nat) (op : Op)
+  | tflags (n : Nat)                    -- MAIN_OPTION (timer_flags) = n
   deriving Repr
 
 def stepCmd (sc : Scripts) (w : World) : Cmd → World × List Ev
@@ -286,6 +350,7 @@ def stepCmd (sc : Scripts) (w : World) : Cmd → World × List Ev
       match runOps w self [op] with
       | (w', evs, .err) => (errorHandler w', evs ++ [.topErr self])
       | (w', evs, _) => (w', evs)
+  | .tflags n => if w.crashed then (w, []) else ({ w with tflags := (n : Int) }, [.tflags (n : Int)])
 
 def runCmds (sc : Scripts) (w : World) : List Cmd → World × List Ev
   | [] => (w, [])
